@@ -614,7 +614,7 @@ func (g *XG) Bool(depth int) gast.Expr {
 	alts := []alt{{"atom", 2}}
 	if depth > 0 {
 		alts[0].w = 1
-		alts = append(alts, alt{"cmpint", 6}, alt{"cmpfloat", 3}, alt{"cmpstr", 2}, alt{"logic", 5}, alt{"not", 2}, alt{"booleq", 1}, alt{"plain_and_negated", 1})
+		alts = append(alts, alt{"cmpint", 6}, alt{"cmpfloat", 3}, alt{"cmpstr", 2}, alt{"logic", 5}, alt{"not", 2}, alt{"booleq", 1}, alt{"plain_and_negated", 1}, alt{"cmp_adjacent_big", 1})
 		if len(g.pathsOf(gast.TTime, nil)) > 0 || g.C.Builtins {
 			alts = append(alts, alt{"cmptime", 1})
 		}
@@ -689,6 +689,20 @@ func (g *XG) Bool(depth int) gast.Expr {
 	case "not":
 		g.feat("not")
 		return &gast.Not{X: g.Bool(depth - 1)}
+	case "cmp_adjacent_big":
+		// two integers beyond 2^53 that are equal or differ by one (exact 64-bit comparison)
+		base := []int64{1 << 53, 1<<53 + 1, 1 << 62, 9223372036854775806, -(1 << 53) - 1, -9223372036854775807}[g.pick(6, "big_base")]
+		d := int64(g.pick(3, "big_delta")) - 1
+		if (base > 0 && d > 0 && base >= 9223372036854775806) || (base < 0 && d < 0 && base <= -9223372036854775807) {
+			d = 0
+		}
+		op := cmpOps[g.pick(6, "cmp_op")]
+		g.feat("adjacent_integers_beyond_2^53")
+		var l, r gast.Expr = gast.I(base), gast.I(base + d)
+		if g.pick(2, "big_swap") == 0 {
+			l, r = r, l
+		}
+		return &gast.Bin{Op: op, L: l, R: r}
 	case "plain_and_negated":
 		// the same sub-expression once in parentheses and once negated: (E) op !(E)
 		e := g.Bool(depth - 1)
